@@ -14,6 +14,7 @@ for f in "$OUT"/benign-*.diff; do
   if ! ( cd "$WT" && go build ./... ) >/dev/null 2>&1; then echo "SKIP $NAME-$k (does not build)"; git -C /repo worktree remove --force "$WT"; rm -rf "$S"; continue; fi
   nf=$(cd "$WT" && go test -count=1 -vet=off ./... 2>&1 | grep -E '^--- FAIL' | grep -vE 'FAIL: (TestSAML|TestSAMLUsingSetSPKeyStore) ' | tr '\n' ' ')
   if [ -n "$nf" ]; then echo "SKIP $NAME-$k (suite fails: $nf)"; git -C /repo worktree remove --force "$WT"; rm -rf "$S"; continue; fi
+  mkdir -p "$S/out"; cp "$D/known_findings.json" "$S/out/"
   out=$("$D/bin/samlcheck" -repo "$WT" -out "$S/out" -controls "$D/controls" -prop all -tier quick 2>&1); code=$?
   what=$(python3 -c "
 import json,sys
